@@ -116,6 +116,10 @@ class Ctx(object):
         self.extra = {}
         self.max_samples = 4
         self.collected = {}
+        self._shrink_cap = None
+        self._shrink_deadline = None
+        self._best = None
+        self._best_size = None
 
     # -- budgets -----------------------------------------------------------------------------
     def n(self, quick, thorough):
@@ -158,7 +162,39 @@ class Ctx(object):
             else:
                 self.collected[k] = (cur[0], cur[1], cur[2], cur[3] + 1)
             return
-        raise violation_class(signature)(signature, case, observed)
+        now = time.time()
+        if self._shrink_deadline is not None and now > self._shrink_deadline:
+            # the shrinking budget of this search is used up: stop failing so that the shrinker converges at once
+            return
+        if self._shrink_deadline is None and self._shrink_cap is not None:
+            self._shrink_deadline = now + self._shrink_cap
+        v = violation_class(signature)(signature, case, observed)
+        try:
+            size = len(json.dumps(jsonable(case)))
+        except Exception:
+            size = 10 ** 9
+        if self._best is None or size < self._best_size:
+            self._best = v
+            self._best_size = size
+        raise v
+
+    def begin_search(self):
+        cap = float(os.environ.get('VERIF_SHRINK_SECONDS', '45' if self.tier == 'quick' else '240'))
+        self._shrink_cap = cap
+        self._shrink_deadline = None
+        self._best = None
+        self._best_size = None
+
+    def end_search(self):
+        """Record the smallest failing case seen during the search that just ended (if any)."""
+        best = self._best
+        self._shrink_cap = None
+        self._shrink_deadline = None
+        self._best = None
+        if best is not None:
+            self.record_violation(best)
+            return True
+        return False
 
     def fail_direct(self, case, signature, observed=None):
         """Like fail(), for plain enumeration loops (no Hypothesis to shrink): record and go on."""
@@ -194,6 +230,9 @@ def hyp_run(ctx, name, strategy, prop, n, shrink=True):
     if shrink and not os.environ.get('VERIF_NOSHRINK'):
         phases.append(Phase.shrink)
 
+    # Shrinking is bounded in wall-clock time (Hypothesis has its own 5 minute cap, far too long for a check that runs on every
+    # change): once the budget is used up ctx.fail() stops raising, the shrinker converges at once, and the smallest failing
+    # case seen so far becomes the replay file.
     @hypothesis.seed(ctx.sub_seed(name))
     @settings(max_examples=n, database=None, deadline=None, report_multiple_bugs=False,
               suppress_health_check=list(HealthCheck), phases=phases, derandomize=False,
@@ -211,20 +250,16 @@ def hyp_run(ctx, name, strategy, prop, n, shrink=True):
             harness_errors.append(traceback.format_exc()[-3000:] + '\ncase: %.2000r' % (case,))
 
     harness_errors = []
+    ctx.begin_search()
     try:
         test()
-        if harness_errors:
-            raise HarnessError(harness_errors[0])
-    except Violation as v:
-        ctx.record_violation(v)
-    except BaseException as e:  # hypothesis Flaky / Unsatisfiable etc. -> harness error
-        if type(e).__name__ in ('FlakyFailure', 'Flaky', 'FlakyReplay') or isinstance(e, BaseExceptionGroup if sys.version_info >= (3, 11) else ()):
-            # a flaky Violation: find it
-            for sub in _walk_exc(e):
-                if isinstance(sub, Violation):
-                    ctx.record_violation(sub)
-                    return
-        raise
+    except BaseException:
+        if not ctx.end_search() and not harness_errors:
+            raise
+    else:
+        ctx.end_search()
+    if harness_errors:
+        raise HarnessError(harness_errors[0])
 
 
 def _walk_exc(e):
@@ -246,16 +281,14 @@ def state_machine_run(ctx, name, machine_cls, n, steps):
     st = settings(max_examples=n, stateful_step_count=steps, database=None, deadline=None,
                   report_multiple_bugs=False, suppress_health_check=list(HealthCheck), phases=phases,
                   derandomize=False, print_blob=False)
+    ctx.begin_search()
     try:
         run_state_machine_as_test(hypothesis.seed(ctx.sub_seed(name))(machine_cls), settings=st)
-    except Violation as v:
-        ctx.record_violation(v)
-    except BaseException as e:
-        for sub in _walk_exc(e):
-            if isinstance(sub, Violation):
-                ctx.record_violation(sub)
-                return
-        raise
+    except BaseException:
+        if not ctx.end_search():
+            raise
+    else:
+        ctx.end_search()
 
 
 # ---------------------------------------------------------------------------------------------
